@@ -572,7 +572,6 @@ def _want(ctx, part):
 
 def run(ctx):
     thorough = ctx.tier == "thorough"
-    complete = True
     if not private_ok():
         ctx.degrade("LocalDate._ctor(days_since_epoch=...)/_days_since_epoch unavailable or inconsistent: public plus_days/days_between used instead")
     cal_ids = list(CalendarSystem.ids)
@@ -592,7 +591,6 @@ def run(ctx):
         if not thorough:
             ctx.cap("date-calendars: non-ISO calendars visit every 211th day inside 0001..9999 plus +/-400 days around every range end "
                     "(every day in the thorough tier)")
-            complete = False
     if _want(ctx, "time"):
         for acc in pmap(w_times, _rot([(a, min(86400, a + 1350)) for a in range(0, 86400, 1350)], ctx.seed)):
             ctx.merge_part("time", acc)
@@ -607,7 +605,6 @@ def run(ctx):
             st = 997
             jobs += [(c, (47_107_123_456,), ()) for c in _split(list(range(1 + ctx.seed % st, ORD_MAX + 1, st)), 8)]
             ctx.cap("datetime-naive: beyond the boundary dates and all of years 1 and 9999, every 997th day (every day in the thorough tier)")
-            complete = False
         for acc in pmap(w_naive, _rot(jobs, ctx.seed)):
             ctx.merge_part("datetime-naive", acc)
         # Pyoda -> stdlib in every calendar, with sub-microsecond parts, inside and outside the stdlib range
@@ -661,7 +658,12 @@ def run(ctx):
         "from_naive_datetime(dt, calendar) is exercised only for calendars whose range contains the day",
         "'fold' is ignored (fixed offsets only)",
     ]
-    ctx.exhaustive = bool(complete and not getattr(ctx, "only", None))
+    # Sub-spaces enumerated completely: every datetime.date; every whole-second Offset<->timedelta; every second of the day x 5
+    # microsecond values; (thorough) every day of every calendar inside 0001..9999.  datetime x offset x microsecond as a whole
+    # is a boundary product, so the run as a whole is not claimed exhaustive.
+    ctx.note("complete_subspaces", ["date: all %d ordinals" % ORD_MAX, "timedelta/offset: all 129601 whole seconds", "time: 86400 seconds x 5 microsecond values"]
+             + (["date-calendars: every day of every calendar inside 0001..9999"] if thorough else []))
+    ctx.exhaustive = False
 
 
 # ---------------------------------------------------------------------------------------------------- replay
